@@ -128,6 +128,25 @@ def pdu_case(draw):
         rx = kind == "v2rx"
 
         def part(batched):
+            # a sixth of the parts are all-minimum (every octet of the part is zero), a sixth all-maximum
+            flavour = draw(st.sampled_from(["zero", "max", "any", "any", "any", "any"]))
+            if flavour == "zero":
+                m = {"nope": draw(st.sampled_from([0, 0, 1])) if not batched else 0, "mod": 0, "tsc": 0}
+                x = dict(m, tn=0, batch=0, trxn=0)
+                if batched:
+                    x["shadow"] = 0
+                x.update(dict(rssi=0, toa256=0, cir=0) if rx else dict(pwr=0, scpir=0))
+                if not m["nope"]:
+                    x["soft-bits" if rx else "hard-bits"] = bytes(148)
+                return x
+            if flavour == "max":
+                m = {"nope": 0, "mod": 0b1101, "tsc": 7}
+                x = dict(m, tn=7, batch=1, trxn=63)
+                if batched:
+                    x["shadow"] = 1
+                x.update(dict(rssi=-255, toa256=-1, cir=-1) if rx else dict(pwr=255, scpir=-1))
+                x["soft-bits" if rx else "hard-bits"] = b"\xff" * MOD_CODES[0b1101]
+                return x
             m = draw(mts_st())
             x = dict(m, tn=draw(st.integers(0, 7)), batch=draw(st.integers(0, 1)), trxn=draw(st.integers(0, 63)))
             if batched:
@@ -214,6 +233,9 @@ def layout_oracle(case):
     if "bpdu" in d and d["bpdu"]:
         cl.append("batched")
         nt = True
+        if any(not any(v for k, v in b.items() if not isinstance(v, (bytes, bytearray))) and
+               not any(b.get("soft-bits", b.get("hard-bits", b""))) for b in d["bpdu"]):
+            cl.append("all-zero-sub-PDU")
     if d.get("nope"):
         cl.append("nope")
         nt = True
@@ -289,7 +311,98 @@ def pdu_sequence_oracle(case):
     return (sorted(cl), True, {"kinds": [c["kind"] for c in case["pdus"]]})
 
 
+# ------------------------------------------------------------ one PDU object through in-place changes
+FIELD_ST = {"tn": st.integers(0, 7), "trxn": st.integers(0, 63), "batch": st.integers(0, 1), "shadow": st.integers(0, 1),
+            "tsc": st.integers(0, 7), "rssi": st.integers(-255, 0), "toa256": S.biased(-32768, 32767), "cir": S.biased(-32768, 32767),
+            "pwr": st.integers(0, 255), "scpir": st.integers(-128, 127), "fn": st.integers(0, 2 ** 32 - 1)}
+_fld = st.sampled_from(sorted(FIELD_ST)).flatmap(lambda f: st.tuples(st.just(f), FIELD_ST[f]))
+_pchg = st.one_of(_fld.map(lambda t: ["set", t[0], t[1]]),
+                  st.tuples(st.integers(0, 7), _fld).map(lambda t: ["bset", t[0], t[1][0], t[1][1]]),
+                  st.tuples(st.integers(0, 7), _fld).map(lambda t: ["bset", t[0], t[1][0], t[1][1]]),
+                  st.tuples(st.integers(0, 7), st.integers(0, 255)).map(lambda t: ["bburst", t[0], t[1]]),
+                  st.integers(0, 255).map(lambda v: ["burst", v]),
+                  st.integers(0, 7).map(lambda i: ["bpop", i]), st.integers(0, 7).map(lambda i: ["bdup", i]))
+
+
+def _deep(x):
+    if isinstance(x, dict):
+        return {k: _deep(v) for k, v in x.items()}
+    if isinstance(x, list):
+        return [_deep(v) for v in x]
+    return x
+
+
+def life_oracle(case):
+    """the same PDU object encoded again after its content was changed in place (top level, inside a batched sub-PDU, list grown or
+    shrunk) or after it decoded another datagram: every to_bytes() must be the documented layout of the CURRENT content"""
+    kind = case["kind"]
+    cls, ver, lay = CLS[kind]
+    model = _deep(case["d"])
+    pdu = cls()
+    pdu.c = _deep(case["d"])
+    n_enc = n_nested = 0
+
+    def both(fn):
+        fn(model)
+        fn(pdu.c)
+    for k, op in enumerate(case["ops"]):
+        if op[0] == "set" and op[1] in model:
+            both(lambda c: c.__setitem__(op[1], op[2]))
+        elif op[0] == "burst":
+            key = "soft-bits" if "soft-bits" in model else ("hard-bits" if "hard-bits" in model else None)
+            if key:
+                both(lambda c: c.__setitem__(key, bytes([op[1]]) * len(c[key])))
+        elif op[0] in ("bset", "bburst", "bpop", "bdup") and model.get("bpdu"):
+            i = op[1] % len(model["bpdu"])
+            if op[0] == "bset" and op[2] in model["bpdu"][i]:
+                both(lambda c: c["bpdu"][i].__setitem__(op[2], op[3]))
+            elif op[0] == "bburst":
+                key = "soft-bits" if "soft-bits" in model["bpdu"][i] else ("hard-bits" if "hard-bits" in model["bpdu"][i] else None)
+                if key:
+                    both(lambda c: c["bpdu"][i].__setitem__(key, bytes([op[2]]) * len(c["bpdu"][i][key])))
+            elif op[0] == "bpop":
+                both(lambda c: c["bpdu"].pop(i))
+            elif len(model["bpdu"]) < 8:
+                both(lambda c: c["bpdu"].append(_deep(c["bpdu"][i])))
+            n_nested += 1
+        elif op[0] == "decode":
+            other = op[1]
+            model = _deep(other)
+            try:
+                pdu.from_bytes(bytes(lay(other)))
+            except codec.DecodeError as e:
+                raise Violation("c17:life:own-encoding-rejected:%s" % kind, "step %d: %r" % (k, e))
+        elif op[0] == "encode":
+            ref = bytes(lay(model))
+            try:
+                enc = bytes(pdu.to_bytes())
+            except codec.EncodeError as e:
+                raise Violation("c17:life:valid-values-refused:%s" % kind, "step %d: %r" % (k, e))
+            n_enc += 1
+            if enc != ref:
+                i = next((j for j in range(min(len(enc), len(ref))) if enc[j] != ref[j]), min(len(enc), len(ref)))
+                raise Violation("c17:layout-differs:%s:after-in-place-change" % kind,
+                                "encoding %d of one object (step %d %r): octet %d definition %s documented %s (lengths %d/%d)" % (
+                                    n_enc, k, [o[0] for o in case["ops"][:k + 1]], i, enc[i:i + 4].hex(), ref[i:i + 4].hex(), len(enc), len(ref)))
+    return ([kind + "/life"] + (["nested-change"] if n_nested else []), n_enc >= 2, {"kind": kind, "ops": [o[0] for o in case["ops"]]})
+
+
+@st.composite
+def life_case(draw):
+    c = draw(pdu_case())
+    same_kind = pdu_case().filter(lambda x: x["kind"] == c["kind"])
+    mid = draw(st.lists(_pchg, min_size=1, max_size=4))
+    tail = draw(st.lists(st.one_of(_pchg, _pchg, st.just(["encode"])), max_size=5))
+    ops = [["encode"]] + mid + [["encode"]] + tail
+    if draw(st.integers(0, 3)) == 0:
+        other = draw(same_kind)["d"]
+        ops = ops + [["decode", other], ["encode"]] + draw(st.lists(_pchg, min_size=1, max_size=2)) + [["encode"]]
+    return {"kind": c["kind"], "d": c["d"], "ops": ops}
+
+
+
 SUBS = [
+    Sub("pdu_object_life", strategy=life_case(), oracle=life_oracle, examples={"quick": 600, "thorough": 25000}),
     Sub("pdu_layouts", strategy=pdu_case(), oracle=layout_oracle, examples={"quick": 2500, "thorough": 80000}),
     Sub("pdu_sequences", strategy=st.fixed_dictionaries({"pdus": st.lists(pdu_case(), min_size=2, max_size=5)}), oracle=pdu_sequence_oracle,
         examples={"quick": 500, "thorough": 20000}),
